@@ -119,4 +119,71 @@ theorem den_top {ds : Limbs} {t : Nat} (hD : Normalized (ds ++ [t])) (wlz : Nat)
   · have : 2 ^ (a' + 1) ≤ 2 ^ (64 - wlz) := Nat.pow_le_pow_right (by decide) (by rcases ha' with h | h <;> omega)
     omega
 
+/-! ## arithmetic of the comparison -/
+
+theorem cmp_mul_right (a b c : Nat) (hc : 0 < c) : compare (a * c) (b * c) = compare a b := by
+  rcases Nat.lt_trichotomy a b with h | h | h
+  · rw [cmp_lt h, cmp_lt (Nat.mul_lt_mul_of_pos_right h hc)]
+  · rw [cmp_eq h, cmp_eq (by rw [h])]
+  · rw [cmp_gt h, cmp_gt (Nat.mul_lt_mul_of_pos_right h hc)]
+
+/-- two comparisons that become the same after scaling by positive factors -/
+theorem cmp_scale2 (a b a' b' U W : Nat) (hU : 0 < U) (hW : 0 < W) (ha : a * U = a' * W) (hb : b * U = b' * W) :
+    compare a b = compare a' b' := by
+  rw [← cmp_mul_right a b U hU, ha, hb, cmp_mul_right a' b' W hW]
+
+theorem scale_eq (S r : Nat) (a1 a2 b1 b2 c1 c2 d1 d2 : Nat) (hr : a1 + a2 = c1 + c2) (h2 : b1 + b2 = d1 + d2) :
+    (S * r ^ a1 * 2 ^ b1) * (r ^ a2 * 2 ^ b2) = (S * r ^ c1 * 2 ^ d1) * (r ^ c2 * 2 ^ d2) := by
+  have e1 : r ^ a1 * r ^ a2 = r ^ c1 * r ^ c2 := by rw [← Nat.pow_add, ← Nat.pow_add, hr]
+  have e2 : (2 : Nat) ^ b1 * 2 ^ b2 = 2 ^ d1 * 2 ^ d2 := by rw [← Nat.pow_add, ← Nat.pow_add, h2]
+  calc (S * r ^ a1 * 2 ^ b1) * (r ^ a2 * 2 ^ b2) = S * (r ^ a1 * r ^ a2) * (2 ^ b1 * 2 ^ b2) := by ring
+    _ = S * (r ^ c1 * r ^ c2) * (2 ^ d1 * 2 ^ d2) := by rw [e1, e2]
+    _ = _ := by ring
+
+/-- **the digit comparison is the comparison of the value with `b + h`**: `X/Y = m·2^te / r^sci` (cross-multiplied,
+`hXY`), the value is `S·r^(sci + 1 − N)`, `te = k − (L + 1)` -/
+theorem cmp_transfer (S r m N k L X Y : Nat) (sci te : Int) (hr : 0 < r) (hY : 0 < Y) (hte : te = (k : Int) - (L + 1))
+    (hXY : X * (r ^ sci.toNat * 2 ^ (-te).toNat) = Y * (m * 2 ^ te.toNat * r ^ (-sci).toNat)) :
+    compare (S * Y * r) (X * r ^ N) =
+      compare (2 * ((powFrac r (sci + 1 - N) S).1 * 2 ^ L)) (m * 2 ^ k * (powFrac r (sci + 1 - N) S).2) := by
+  have hApos : 0 < r ^ sci.toNat * 2 ^ (-te).toNat := Nat.mul_pos (Nat.pow_pos hr) (Nat.two_pow_pos _)
+  -- first: eliminate `X`, `Y`
+  have step1 : compare (S * Y * r) (X * r ^ N) =
+      compare (S * r ^ (1 + sci.toNat) * 2 ^ (-te).toNat) (m * r ^ ((-sci).toNat + N) * 2 ^ te.toNat) := by
+    rw [← cmp_mul_right (S * Y * r) (X * r ^ N) _ hApos]
+    have e1 : S * Y * r * (r ^ sci.toNat * 2 ^ (-te).toNat) = (S * r ^ (1 + sci.toNat) * 2 ^ (-te).toNat) * Y := by
+      rw [Nat.pow_add, Nat.pow_one]; ring
+    have e2 : X * r ^ N * (r ^ sci.toNat * 2 ^ (-te).toNat) = (m * r ^ ((-sci).toNat + N) * 2 ^ te.toNat) * Y := by
+      calc X * r ^ N * (r ^ sci.toNat * 2 ^ (-te).toNat) = (X * (r ^ sci.toNat * 2 ^ (-te).toNat)) * r ^ N := by ring
+        _ = (Y * (m * 2 ^ te.toNat * r ^ (-sci).toNat)) * r ^ N := by rw [hXY]
+        _ = _ := by rw [Nat.pow_add]; ring
+    rw [e1, e2, cmp_mul_right _ _ Y hY]
+  rw [step1]
+  have hpf : powFrac r (sci + 1 - N) S = (S * r ^ (sci + 1 - N).toNat, r ^ (-(sci + 1 - N)).toNat) := by
+    unfold powFrac; split
+    · rename_i h; have : (-(sci + 1 - (N : Int))).toNat = 0 := by omega
+      rw [this]; simp
+    · rename_i h; have : (sci + 1 - (N : Int)).toNat = 0 := by omega
+      rw [this]; simp
+  rw [hpf]
+  dsimp only
+  generalize he1 : (sci + 1 - (N : Int)).toNat = e1
+  generalize he2 : (-(sci + 1 - (N : Int))).toNat = e2
+  generalize hs1 : sci.toNat = s1
+  generalize hs2 : (-sci).toNat = s2
+  generalize ht1 : te.toNat = t1
+  generalize ht2 : (-te).toNat = t2
+  apply cmp_scale2 _ _ _ _ (r ^ (e1 + e2 + s2 + N) * 2 ^ (L + 1 + k)) (r ^ (1 + s1 + e2 + s2 + N) * 2 ^ (t2 + k))
+    (Nat.mul_pos (Nat.pow_pos hr) (Nat.two_pow_pos _)) (Nat.mul_pos (Nat.pow_pos hr) (Nat.two_pow_pos _))
+  · have := scale_eq S r (1 + s1) (e1 + e2 + s2 + N) t2 (L + 1 + k) e1 (1 + s1 + e2 + s2 + N) (L + 1) (t2 + k)
+      (by omega) (by omega)
+    calc S * r ^ (1 + s1) * 2 ^ t2 * (r ^ (e1 + e2 + s2 + N) * 2 ^ (L + 1 + k)) =
+          S * r ^ e1 * 2 ^ (L + 1) * (r ^ (1 + s1 + e2 + s2 + N) * 2 ^ (t2 + k)) := this
+      _ = 2 * (S * r ^ e1 * 2 ^ L) * (r ^ (1 + s1 + e2 + s2 + N) * 2 ^ (t2 + k)) := by rw [Nat.pow_succ]; ring
+  · have := scale_eq m r (s2 + N) (e1 + e2 + s2 + N) t1 (L + 1 + k) e2 (1 + s1 + e2 + s2 + N) k (t2 + k)
+      (by omega) (by omega)
+    calc m * r ^ (s2 + N) * 2 ^ t1 * (r ^ (e1 + e2 + s2 + N) * 2 ^ (L + 1 + k)) =
+          m * r ^ e2 * 2 ^ k * (r ^ (1 + s1 + e2 + s2 + N) * 2 ^ (t2 + k)) := this
+      _ = m * 2 ^ k * r ^ e2 * (r ^ (1 + s1 + e2 + s2 + N) * 2 ^ (t2 + k)) := by ring
+
 end LexVerif.Proof.Slow
